@@ -25,7 +25,7 @@ EXPLANATION = (
     'largest table the men guard admits, aligned to slots and buckets, guarded by the size test, and placed at the top of the table.'
     ' (5) probeDTM answers only for positions without castling rights (the castle mask is tested in the probe or in the position import it requires).'
     ' Added later; (7) every adjacent-duplicate filter of the generator compares each element that has a predecessor with it, and the successor / predecessor lists are sorted before they are returned.'
-    " Added later; (8) in getUnMoves the un-capture moves the black king first and the white king last, as TBIndex::setSquare's special cases require (guard evaluated for every piece number). (7, extended) every neighbour-list loop has such a filter, or the list is cut at std::unique where it is sorted. (9) TBPosition::setPosition succeeds only after a sweep over every piece type that fails on a man that found no slot. (10) the first sweep of the generation stores a value for every index it visits (memory inside the hash table holds stale bytes).")
+    " Added later; (8) in getUnMoves the un-capture moves the black king first and the white king last, as TBIndex::setSquare's special cases require (guard evaluated for every piece number). (7, extended) every neighbour-list loop has such a filter, or the list is cut at std::unique where it is sorted. (9) TBPosition::setPosition succeeds only after a sweep over every piece type that fails on a man that found no slot. (10) the first sweep of the generation stores a value for every index it visits (memory inside the hash table holds stale bytes). (11) TBIndex::canonize does not re-order the pieces after the index was compared with its mirror alternative.")
 UNDECIDED = 'exactness of the distance-to-mate values themselves (retrograde analysis over millions of positions is value-level).'
 ASSUMPTIONS = ['8-bit two\'s complement storage of PositionValue::State (S8)',
                'TBPosition index arithmetic (20*64^(N-1) positions) is read from the constructor\'s constants']
@@ -44,6 +44,7 @@ def run(fb, rep, tier):
     c8_uncapture_order(fb, rep, 'C12.8')
     c9_all_men_placed(fb, rep, 'C12.9')
     c10_first_sweep_defines_every_slot(fb, rep, 'C12.10')
+    c11_canonical_index_compared_after_sorting(fb, rep, 'C12.11')
 
 
 # ----------------------------------------------------------------------------- .1
@@ -1164,3 +1165,28 @@ def c10_first_sweep_defines_every_slot(fb, rep, clause):
         rep.ob(clause, 'K2 must-pass-through', '%s: the first sweep stores a value for every index it visits' % f.name.replace('TBGenerator', 'TBGen'), leak is None,
                '%s:%s' % (f.file, (f.blocks[h].get('term') or {}).get('ln')), '' if leak is None else 'iteration without a store: ' + ' -> '.join('B%s@%s' % (x, f.block_line(x)) for x in leak[-6:]), f.sname)
     rep.floor(clause, 'first sweeps of TBGenerator::generate', n, 2)
+
+
+# ----------------------------------------------------------------------------- .11
+
+def c11_canonical_index_compared_after_sorting(fb, rep, clause):
+    """K2 one position, one index.  TBIndex::canonize() picks, for a white king on the long diagonal, the smaller of the index
+    and its mirror image.  The two can be compared only in normal form: when the class has two equal men the mirrored
+    placement has to be sorted first, otherwise `sorted(mirror) < original <= unsorted(mirror)` keeps a non-canonical index,
+    the same position then lives in two slots and the retrograde passes mark one of them.  So no call that re-orders the
+    pieces (sortPieces) may follow the comparison with the saved index."""
+    f = fb.find1('TBIndex::canonize')
+    if rep.need(clause, f, 'TBIndex::canonize') is None:
+        return
+    saved = {v['id'] for _, _, e in f.events() if e.get('k') == 'decl' for v in e.get('vars', []) if ap(_strip12(v.get('init'))) == 'this.idx'}
+    cmps = []
+    for b, i, e in f.events():
+        if e.get('k') == 'asg' and ap(e.get('l')) == 'this.idx' and any(isinstance(n, dict) and n.get('k') == 'var' and n.get('id') in saved for n in walk(e.get('r'))):
+            cmps.append((b, i, e))
+    is_sort = lambda e: e is not None and e.get('k') == 'call' and cname(e).split('::')[-1] == 'sortPieces'
+    n_sort = sum(1 for _, _, e in f.events() if is_sort(e))
+    rep.floor(clause, 'comparisons of the index with its saved mirror alternative', len(cmps), 1)
+    rep.floor(clause, 'sortPieces calls in canonize', n_sort, 2)
+    late = [(b, i, e) for b, i, e in cmps if f.path_avoiding((b, i), is_sort, lambda x: False) is not None]
+    rep.ob(clause, 'K2 must-precede', 'canonize: the pieces are not re-ordered after the index was compared with its mirror alternative', not late,
+           R.site(f, late[0][2]) if late else f.where, '%d comparison(s), %d followed by a sortPieces call' % (len(cmps), len(late)), f.sname)
